@@ -333,6 +333,12 @@ fn pipe_case(rt: &tokio::runtime::Runtime, dir: &Path, case: &Value, n: usize) -
 			}
 			for t in all.iter().take(3) {
 				boxes.push(rb(z, t.1, t.2, t.1, t.2));
+				// a TALL thin box and a WIDE flat one (557 rows / columns) with the tile 256 rows / columns below the upper / left edge:
+				// an operation that cuts large boxes into stripes or tiles of 256 meets its seam exactly on the tile
+				if z >= 9 {
+					boxes.push(rb(z, t.1, t.2.saturating_sub(256), t.1, (t.2 as u64 + 300).min(max as u64) as u32));
+					boxes.push(rb(z, t.1.saturating_sub(256), t.2, (t.1 as u64 + 300).min(max as u64) as u32, t.2));
+				}
 			}
 			if x1 < max {
 				boxes.push(rb(z, max, max, max, max));
